@@ -1,6 +1,7 @@
 package main
 
 import (
+	"regexp"
 	"bufio"
 	"encoding/json"
 	"fmt"
@@ -113,13 +114,20 @@ func report(f *flags, w *propWork, results []*oblResult, wall time.Duration) int
 		}
 	}
 	// baseline: the obligation set may not shrink or change names silently
+	// names are compared modulo what a harmless edit changes: basic-block numbers, path-duplication
+	// suffixes and the ordinals of safety obligations (the k-th nil check of a function); what must not
+	// disappear silently is a class of obligations (a postcondition, an invariant, the safety checks of a
+	// function), which would make the check vacuous
 	names := map[string]bool{}
 	for _, r := range results {
-		names[r.Name] = true
+		names[normObl(r.Name)] = true
 	}
 	var missing []string
+	seenMissing := map[string]bool{}
 	for _, n := range base.Props[f.prop] {
-		if !names[n] {
+		nn := normObl(n)
+		if !names[nn] && !seenMissing[nn] {
+			seenMissing[nn] = true
 			missing = append(missing, n)
 		}
 	}
@@ -141,7 +149,7 @@ func report(f *flags, w *propWork, results []*oblResult, wall time.Duration) int
 		// undecided obligations that are not in the baseline are not violations (never discharged before)
 		inBase := false
 		for _, n := range base.Props[f.prop] {
-			if n == r.Name {
+			if n == r.Name || normObl(n) == normObl(r.Name) {
 				inBase = true
 			}
 		}
@@ -361,4 +369,25 @@ func cmdReplay(args []string) int {
 	}
 	fmt.Println("replay: not reproduced on the current tree")
 	return 0
+}
+
+var (
+	reBlockSuffix = regexp.MustCompile(`@b[0-9]+(~[0-9]+)?`)
+	reDupSuffix   = regexp.MustCompile(`~[0-9]+$`)
+	reOrdinal     = regexp.MustCompile(`#[0-9]+`)
+)
+
+// normObl: the name of an obligation without the parts that depend on the layout of the code.
+func normObl(n string) string {
+	n = reBlockSuffix.ReplaceAllString(n, "")
+	n = reDupSuffix.ReplaceAllString(n, "")
+	keep := strings.Contains(n, "/post") || strings.Contains(n, "/inv-entry") || strings.Contains(n, "/inv-pres") || strings.Contains(n, "/lemma")
+	if !keep {
+		n = reOrdinal.ReplaceAllString(n, "")
+	}
+	// exit ordinals of postconditions (post:L#k is the k-th exit): a refactoring may add or merge exits
+	if strings.Contains(n, "/post") {
+		n = reOrdinal.ReplaceAllString(n, "")
+	}
+	return n
 }
